@@ -563,6 +563,66 @@ def pairreset_rule(P, R):
         R.anchor_missing(RULE, "only %d occurrences of the pair-accumulator idiom (init_mix: 4)" % n)
 
 
+
+def genmix_rule(P, R):
+    """For `-stagnant 1 exch_f th_m th_im` transport() writes mobile / immobile exchange recipes into the user's MIX store (Rxn_mix_map[n] =
+    generated mix).  They are scratch of that TRANSPORT run: left behind, a later ADVECTION / RUN_CELLS / USE mix in the same instance mixes
+    every cell with its former stagnant partner - cell i after an advective shift is then not the previous solution of its upstream
+    neighbour, and mass is created.  transport_cleanup() must clear the store under the condition under which transport() generates into
+    it (compared as a set of conjuncts on stag_data)."""
+    RULE = "C11.genmix"
+    R.rule(RULE, "MIX recipes generated by transport() for first-order stagnant exchange are removed by transport_cleanup() under the same condition", minimum=1)
+    tr, cl = P.one("Phreeqc::transport"), P.one("Phreeqc::transport_cleanup")
+
+    def conj(c):
+        c = T.strip_casts(c)
+        if T.is_node(c) and c[0] == "Paren":
+            return conj(c[2])
+        if T.is_node(c) and c[0] == "Bin" and c[2] == "&&":
+            return conj(c[3]) + conj(c[4])
+        return [" ".join(T.text(c).split())]
+
+    def guarded(fn, pred):
+        out = []
+
+        def rec(n, conds):
+            if not T.is_node(n):
+                return
+            if pred(n):
+                out.append((n[1], frozenset(k for c in conds for k in conj(c) if "stag_data" in k)))
+            if n[0] == "If":
+                rec(n[2], conds)
+                rec(n[3], conds + [n[2]])
+                rec(n[4], conds)
+                return
+            for ch in T.children(n):
+                rec(ch, conds)
+        rec(fn["body"], [])
+        return out
+
+    def is_gen(x):
+        return x[0] == "Call" and T.callee_name(x) == "operator=" and x[4] and any(
+            y[0] == "Call" and T.callee_name(y) == "operator[]" and y[4] and any(z[0] == "Member" and z[2] == "Phreeqc::Rxn_mix_map" for z in T.walk(y[4][0])) for y in T.walk(x[4][0]))
+
+    def is_clear(x):
+        return x[0] == "Call" and T.callee_name(x) == "clear" and T.call_obj(x) is not None and any(
+            y[0] == "Member" and y[2] == "Phreeqc::Rxn_mix_map" for y in T.walk(T.call_obj(x)))
+    gens = guarded(tr, is_gen)
+    if not gens:
+        R.anchor_missing(RULE, "transport() no longer generates entries of Rxn_mix_map")
+        return
+    want = {c for _, c in gens}
+    clears = {c for _, c in guarded(cl, is_clear)}
+    for line, c in sorted(gens):
+        inst = "transport@%d" % line
+        if any(cc <= c for cc in clears):
+            R.ok(RULE, inst, "generated under {%s}; transport_cleanup clears the store under a condition that covers it" % ", ".join(sorted(c)))
+        else:
+            R.violation(RULE, inst, "transport() writes a generated recipe into Rxn_mix_map under {%s} and transport_cleanup() does not clear the store under that condition: the "
+                        "recipes survive the run and a later ADVECTION / RUN_CELLS mixes every cell with its former stagnant partner" % ", ".join(sorted(c)),
+                        file=cl["file"], line=cl["line"], function=cl["q"])
+
+
 def run(P, R, tier):
     mixwater_rule(P, R)
     maxmix_rule(P, R)
@@ -572,6 +632,7 @@ def run(P, R, tier):
     kinmix_rule(P, R)
     implicitsides_rule(P, R)
     pairreset_rule(P, R)
+    genmix_rule(P, R)
     R.undecided += ["conservation of the column inventory over shifts (mixing-factor arithmetic)", "bounded mixing / convexity",
                     "stagnant zones, multicomponent diffusion, boundary conditions, reactive solids"]
     R.rule("C11.shift", "in-place advective shift loops over the solution store walk against the copy direction (each source is read before it is overwritten)", minimum=2)
